@@ -515,23 +515,27 @@ Section Index.
 Variables WW1 WW2 Bt : list Z.
 Hypothesis HW1 : Forall wsr WW1.
 Hypothesis HW2 : Forall wsr WW2.
-Hypothesis NW1 : WW1 <> [].
-Hypothesis NW2 : WW2 <> [].
 
 Definition idx_rel (X : list Z) (o1 o2 : option nat) : Prop :=
   (exists p, p < length X /\ o1 = Some p /\ o2 = Some p) \/
   (exists j, o1 = Some (length X + length WW1 + j) /\ o2 = Some (length X + length WW2 + j)) \/
   (o1 = None /\ o2 = None).
 
-Lemma index_rel : forall p0 pat, no_ws (p0 :: pat) -> forall X,
+Lemma index_rel_nil : forall p0 pat, no_ws (p0 :: pat) ->
+  idx_rel [] (index_of (p0 :: pat) ([] ++ WW1 ++ Bt)) (index_of (p0 :: pat) ([] ++ WW2 ++ Bt)).
+Proof.
+  intros p0 pat Hp. inversion Hp as [|? ? Hp0 _]; subst.
+  cbn [app length]. rewrite !index_ws by assumption. destruct (index_of (p0 :: pat) Bt) as [j|]; cbn [option_map].
+  - right. left. exists j. split; reflexivity.
+  - right. right. split; reflexivity.
+Qed.
+
+Lemma index_rel : WW1 <> [] -> WW2 <> [] -> forall p0 pat, no_ws (p0 :: pat) -> forall X,
   idx_rel X (index_of (p0 :: pat) (X ++ WW1 ++ Bt)) (index_of (p0 :: pat) (X ++ WW2 ++ Bt)).
 Proof.
-  intros p0 pat Hp. inversion Hp as [|? ? Hp0 _]; subst. induction X as [|s X IH].
-  - cbn [app length]. rewrite !index_ws by assumption. destruct (index_of (p0 :: pat) Bt) as [j|]; cbn [option_map].
-    + right. left. exists j. split; reflexivity.
-    + right. right. split; reflexivity.
-  - destruct WW1 as [|w1 V1]; [congruence|]. destruct WW2 as [|w2 V2]; [congruence|].
-    inversion HW1; inversion HW2; subst.
+  intros NW1 NW2 p0 pat Hp. induction X as [|s X IH]; [now apply index_rel_nil|]. inversion Hp as [|? ? Hp0 _]; subst.
+  destruct WW1 as [|w1 V1]; [congruence|]. destruct WW2 as [|w2 V2]; [congruence|].
+  inversion HW1; inversion HW2; subst.
     pose proof (is_prefix_cut (p0 :: pat) Hp w1 w2 (V1 ++ Bt) (V2 ++ Bt) H1 H5 (s :: X)) as C. cbn [app] in C.
     cbn [app index_of] in *. rewrite C.
     destruct (is_prefix (p0 :: pat) (s :: X ++ w2 :: V2 ++ Bt)).
@@ -545,15 +549,13 @@ Qed.
 
 Definition go_pred (pidx lidx : option nat) : bool :=
   match pidx with
-  | Some p => Nat.ltb 0 p && match lidx with None => true | Some q => Nat.ltb p q end
+  | Some p => match lidx with None => true | Some q => Nat.ltb p q end
   | None => false
   end.
 
 Lemma go_pred_rel X p1 p2 l1 l2 : idx_rel X p1 p2 -> idx_rel X l1 l2 ->
   go_pred p1 l1 = go_pred p2 l2 /\ (p1 = None <-> p2 = None) /\ (l1 = None <-> l2 = None).
 Proof.
-  assert (L1 : 1 <= length WW1) by (destruct WW1; [congruence|cbn; lia]).
-  assert (L2 : 1 <= length WW2) by (destruct WW2; [congruence|cbn; lia]).
   intros [(p & Hp & -> & ->)|[(j & -> & ->)|(-> & ->)]] [(q & Hq & -> & ->)|[(k & -> & ->)|(-> & ->)]];
     (split; [|split; split; congruence]); unfold go_pred; try reflexivity;
     repeat match goal with |- context [Nat.ltb ?a ?b] => destruct (Nat.ltb_spec a b) end; cbn [andb]; try reflexivity; lia.
@@ -572,21 +574,33 @@ Proof. unfold y2. now rewrite map_app, map_fst_ascii. Qed.
 Lemma lex_pol_loc l x st ps lk : l = mkLx (x ++ y1) st ps lk ->
   loc (lex_pred_or_lit l) (lex_pred_or_lit (mkLx (x ++ y2) st ps lk)).
 Proof.
-  intros ->. unfold lex_pred_or_lit. cbn [rest pos]. unfold y1, y2. rewrite !map_app, !map_fst_ascii. unfold rw in *.
+  intros ->. unfold lex_pred_or_lit. cbn [rest pos].
   destruct patterns_no_ws as [PA PL].
   assert (HW : forall w, Forall ws_byte w -> Forall wsr (map bz w)).
   { intros w Hw. apply Forall_map. eapply Forall_impl; [|exact Hw]. intros a Ha. now apply ws_byte_wsr. }
   assert (HN : forall w : list byte, w <> [] -> map bz w <> []) by (intros [|? ?] H; [congruence|discriminate]).
-  pose proof (index_rel (map bz ws1) (map bz ws2) (map fst b) (HW _ W1) (HW _ W2) (HN _ N1) (HN _ N2)) as IR.
   destruct (zs s_anchor) as [|a0 apat] eqn:EA; [discriminate|]. destruct (zs s_literalType) as [|m0 mpat] eqn:EM; [discriminate|].
-  pose proof (IR a0 apat PA (map fst x)) as RP. pose proof (IR m0 mpat PL (map fst x)) as RL.
-  destruct (go_pred_rel (map bz ws1) (map bz ws2) (HW _ W1) (HW _ W2) (HN _ N1) (HN _ N2) _ _ _ _ _ RP RL) as (G & NP & NL).
-  unfold go_pred in G.
-  destruct (index_of (a0 :: apat) (map fst x ++ map bz ws1 ++ map fst b)) as [p1|] eqn:E1;
-  destruct (index_of (a0 :: apat) (map fst x ++ map bz ws2 ++ map fst b)) as [p2|] eqn:E2;
-  destruct (index_of (m0 :: mpat) (map fst x ++ map bz ws1 ++ map fst b)) as [q1|] eqn:E3;
-  destruct (index_of (m0 :: mpat) (map fst x ++ map bz ws2 ++ map fst b)) as [q2|] eqn:E4;
-  try (exfalso; (apply NP in E1 || apply NP in E2 || apply NL in E3 || apply NL in E4 || idtac); congruence);
+  (* the two texts after the opening rune: X ++ V1 ++ Bt and X ++ V2 ++ Bt with V1, V2 white space *)
+  assert (R : exists X V1 V2,
+            tl (map fst (x ++ y1)) = X ++ V1 ++ map fst b /\ tl (map fst (x ++ y2)) = X ++ V2 ++ map fst b /\
+            idx_rel V1 V2 X (index_of (a0 :: apat) (X ++ V1 ++ map fst b)) (index_of (a0 :: apat) (X ++ V2 ++ map fst b)) /\
+            idx_rel V1 V2 X (index_of (m0 :: mpat) (X ++ V1 ++ map fst b)) (index_of (m0 :: mpat) (X ++ V2 ++ map fst b))).
+  { destruct x as [|[r w] x].
+    - assert (S1 : exists a v, ws1 = a :: v) by (destruct ws1; [congruence|eauto]).
+      assert (S2 : exists a v, ws2 = a :: v) by (destruct ws2; [congruence|eauto]).
+      destruct S1 as (a1 & v1 & S1). destruct S2 as (a2 & v2 & S2).
+      pose proof W1 as W1'. pose proof W2 as W2'. rewrite S1 in W1'. rewrite S2 in W2'. inversion W1'; inversion W2'; subst.
+      exists [], (map bz v1), (map bz v2). unfold y1, y2. rewrite S1, S2. cbn [app ascii_runes map tl]. rewrite !map_app, !map_fst_ascii.
+      split; [reflexivity|]. split; [reflexivity|].
+      split; apply index_rel_nil; auto.
+    - exists (map fst x), (map bz ws1), (map bz ws2). unfold y1, y2. cbn [app map tl]. rewrite !map_app, !map_fst_ascii.
+      split; [reflexivity|]. split; [reflexivity|]. split; apply index_rel; auto. }
+  destruct R as (X & V1 & V2 & E1 & E2 & RP & RL). rewrite E1, E2.
+  destruct (go_pred_rel V1 V2 _ _ _ _ _ RP RL) as (G & NP & NL). unfold go_pred in G.
+  destruct (index_of (a0 :: apat) (X ++ V1 ++ map fst b)) as [p1|];
+  destruct (index_of (a0 :: apat) (X ++ V2 ++ map fst b)) as [p2|];
+  destruct (index_of (m0 :: mpat) (X ++ V1 ++ map fst b)) as [q1|];
+  destruct (index_of (m0 :: mpat) (X ++ V2 ++ map fst b)) as [q2|];
   try (destruct NP as [NP1 NP2]; destruct NL as [NL1 NL2]; exfalso;
        first [specialize (NP1 eq_refl); congruence | specialize (NP2 eq_refl); congruence
              | specialize (NL1 eq_refl); congruence | specialize (NL2 eq_refl); congruence]);
